@@ -173,7 +173,9 @@ impl ByronAddress {
     }
     pub fn from_bytes(bytes: Vec<u8>) -> Result<ByronAddress, JsError> {
         let mut raw = Deserializer::from(std::io::Cursor::new(bytes));
-        let extended_addr = ExtendedAddr::deserialize(&mut raw)?;
+        let extended_addr = raw
+            .deserialize_complete::<ExtendedAddr>()
+            .map_err(DeserializeError::from)?;
         Ok(ByronAddress(extended_addr))
     }
     /// returns the byron protocol magic embedded in the address, or mainnet id if none is present
